@@ -5,7 +5,8 @@
 //
 //	cfg     c<0|1>s<0|1>u<0|1>x<0|1>   CaseSensitive, StrictRouting, UnescapePath, custom ctx (NewCtxFunc)
 //	regs    `;`-separated registrations  K:methods:chain:path:handlers
-//	          K        U = Use, A = Add (Get/Post/Put/Head when single), L = All, G = Group(prefix, handlers...)
+//	          K        U = Use, A = Add (Get/Post/Put/Head when single), L = All, G = Group(prefix, handlers...),
+//	                   R = app.Route(chain…).Add(methods…) or .All(…) when methods is `-` (register.go)
 //	          methods  `.`-joined method names (A only), else `-`
 //	          chain    `.`-joined hex group prefixes from the outermost group inwards (`-` = registered on the app)
 //	          path     hex (for G: unused, `-`)
@@ -16,8 +17,10 @@
 //
 // Observation (one field, `;`-separated key=value):
 //
-//	t   handler-id trace (`.`-joined, `-` = empty)       s  response status       a  sorted Allow values
+//	t   handler-id trace (`.`-joined, `-` = empty; `loop` = more than 1000 handler calls)       s  response status       a  sorted Allow values
 //	ps  c.Path() of a request for each paths[i] (hex, `.`-joined)
+//	ph  ctx.treePathHash of a request for each paths[i] (verif hook)
+//	rp  Route.Path of each registration's route (public field)
 //	tr  the real lookup index of the request method: key:pos.pos/key:pos…  (via the verif hook)
 //	mb  per registration, per paths[i]: (*Route).match of that registration's route (verif hook), `.` between regs
 //	ab  per registration, per paths[i]: did the registration alone in a fresh app (same config) run on that path
@@ -61,7 +64,10 @@ type state struct {
 	trace []int
 	paths []string
 	plain bool // ignore scripts: record and stop (used for the single-registration apps)
+	loop  bool // more than maxCalls handler invocations in one request: the dispatcher does not terminate
 }
+
+const maxCalls = 1000
 
 func (c config) String() string {
 	return "c" + gen.B(c.cs) + "s" + gen.B(c.strict) + "u" + gen.B(c.unesc) + "x" + gen.B(c.custom)
@@ -140,7 +146,7 @@ var validMethods = map[string]bool{"GET": true, "HEAD": true, "POST": true, "PUT
 
 func parseReg(s string, npaths int) (reg, bool) {
 	f := strings.Split(s, ":")
-	if len(f) != 5 || len(f[0]) != 1 || !strings.Contains("UALG", f[0]) {
+	if len(f) != 5 || len(f[0]) != 1 || !strings.Contains("UALGR", f[0]) {
 		return reg{}, false
 	}
 	g := reg{kind: f[0][0]}
@@ -152,14 +158,14 @@ func parseReg(s string, npaths int) (reg, bool) {
 			}
 		}
 	}
-	if (g.kind == 'A') != (len(g.methods) > 0) {
+	if g.kind != 'R' && (g.kind == 'A') != (len(g.methods) > 0) {
 		return reg{}, false
 	}
 	var ok bool
 	if g.chain, ok = unhexDot(f[2]); !ok {
 		return reg{}, false
 	}
-	if g.kind == 'G' && len(g.chain) == 0 {
+	if (g.kind == 'G' || g.kind == 'R') && len(g.chain) == 0 {
 		return reg{}, false
 	}
 	if g.path, ok = unhexSafe(f[3]); !ok {
@@ -207,6 +213,10 @@ func parseReg(s string, npaths int) (reg, bool) {
 
 func mkHandler(h handler, st *state) fiber.Handler {
 	return func(c fiber.Ctx) error {
+		if len(st.trace) >= maxCalls {
+			st.loop = true
+			return nil
+		}
 		st.trace = append(st.trace, h.hid)
 		if st.plain {
 			return nil
@@ -246,6 +256,19 @@ func register(app *fiber.App, g reg, st *state) {
 	hs := make([]fiber.Handler, len(g.hs))
 	for i, h := range g.hs {
 		hs[i] = mkHandler(h, st)
+	}
+	if g.kind == 'R' {
+		// app.Route(p0).Route(p1)… then Add(methods…) or All(…) (register.go)
+		rr := app.Route(g.chain[0])
+		for _, p := range g.chain[1:] {
+			rr = rr.Route(p)
+		}
+		if len(g.methods) == 0 {
+			rr.All(hs[0], hs[1:]...)
+		} else {
+			rr.Add(g.methods, hs[0], hs[1:]...)
+		}
+		return
 	}
 	var r fiber.Router = app
 	chain := g.chain
@@ -344,6 +367,7 @@ type built struct {
 	// cache of the per-path observations for override targets (index ≥ 1 of paths)
 	ovr      []string
 	ovrPs    []string
+	ovrPh    []string
 	ovrMb    [][]byte
 	ovrAb    [][]byte
 	treeMemo map[string]string
@@ -365,8 +389,9 @@ func build(cfg config, regs []reg, ovr []string) (b *built, ok bool) {
 		b.singles = append(b.singles, buildSingle(cfg, g))
 	}
 	for _, p := range ovr {
-		ps, mb, ab := b.probe(p)
+		ps, ph, mb, ab := b.probe(p)
 		b.ovrPs = append(b.ovrPs, ps)
+		b.ovrPh = append(b.ovrPh, strconv.Itoa(ph))
 		b.ovrMb = append(b.ovrMb, mb)
 		b.ovrAb = append(b.ovrAb, ab)
 	}
@@ -374,8 +399,11 @@ func build(cfg config, regs []reg, ovr []string) (b *built, ok bool) {
 }
 
 // probe computes, for one raw path, c.Path() and the per-registration match / alone bits.
-func (b *built) probe(path string) (ps string, mb, ab []byte) {
-	withCtx(b.app, "GET", path, func(c fiber.Ctx) { ps = string([]byte(c.Path())) })
+func (b *built) probe(path string) (ps string, ph int, mb, ab []byte) {
+	withCtx(b.app, "GET", path, func(c fiber.Ctx) {
+		ps = string([]byte(c.Path()))
+		ph = fiber.VerifTreePathHash(c)
+	})
 	for _, s := range b.singles {
 		bit := byte('0')
 		if s.route != nil {
@@ -396,7 +424,18 @@ func (b *built) probe(path string) (ps string, mb, ab []byte) {
 			ab = append(ab, '0')
 		}
 	}
-	return ps, mb, ab
+	return ps, ph, mb, ab
+}
+
+// rawPaths: Route.Path of every registration's route (public field), as registered alone
+func (b *built) rawPaths() string {
+	out := make([]string, len(b.singles))
+	for i, s := range b.singles {
+		if s.route != nil {
+			out[i] = s.route.Path
+		}
+	}
+	return hexDot(out)
 }
 
 func (b *built) tree(method string) string {
@@ -429,6 +468,7 @@ func (b *built) observe(method, path string) (obs string) {
 	paths := append([]string{path}, b.ovr...)
 	b.st.paths = paths
 	b.st.trace = b.st.trace[:0]
+	b.st.loop = false
 	fctx := serve(b.h, method, path)
 	tr := make([]string, len(b.st.trace))
 	for i, h := range b.st.trace {
@@ -437,6 +477,9 @@ func (b *built) observe(method, path string) (obs string) {
 	t := strings.Join(tr, ".")
 	if t == "" {
 		t = "-"
+	}
+	if b.st.loop {
+		t = "loop"
 	}
 	var allow []string
 	if v := string(fctx.Response.Header.Peek("Allow")); v != "" {
@@ -448,8 +491,9 @@ func (b *built) observe(method, path string) (obs string) {
 		a = "-"
 	}
 	status := fctx.Response.StatusCode()
-	ps0, mb0, ab0 := b.probe(path)
+	ps0, ph0, mb0, ab0 := b.probe(path)
 	pss := append([]string{ps0}, b.ovrPs...)
+	phs := append([]string{strconv.Itoa(ph0)}, b.ovrPh...)
 	mbs := make([]string, len(b.regs))
 	abs := make([]string, len(b.regs))
 	for i := range b.regs {
@@ -461,7 +505,11 @@ func (b *built) observe(method, path string) (obs string) {
 		}
 		mbs[i], abs[i] = string(m), string(a)
 	}
-	return fmt.Sprintf("t=%s;s=%d;a=%s;ps=%s;tr=%s;mb=%s;ab=%s", t, status, a, hexDot(pss), b.tree(method),
+	if b.st.loop {
+		return fmt.Sprintf("t=loop;s=loop;a=-;ps=%s;ph=%s;rp=%s;tr=%s;mb=%s;ab=%s", hexDot(pss), strings.Join(phs, "."),
+			b.rawPaths(), b.tree(method), strings.Join(mbs, "."), strings.Join(abs, "."))
+	}
+	return fmt.Sprintf("t=%s;s=%d;a=%s;ps=%s;ph=%s;rp=%s;tr=%s;mb=%s;ab=%s", t, status, a, hexDot(pss), strings.Join(phs, "."), b.rawPaths(), b.tree(method),
 		strings.Join(mbs, "."), strings.Join(abs, "."))
 }
 
